@@ -27,6 +27,8 @@ func main() {
 		cmdRAC(os.Args[2:])
 	case "replay":
 		cmdReplay(os.Args[2:])
+	case "baseline":
+		cmdBaseline(os.Args[2:])
 	default:
 		fmt.Fprintln(os.Stderr, "unknown command", os.Args[1])
 		os.Exit(3)
